@@ -159,16 +159,114 @@ def check_config(rep, prog):
             req(r == sy("c%d" % i), "K5", "%s-%s" % (space, n), p, "%s::%s() reads channel %d" % (space, n, i), r)
 
 
+def sector_rules(rep, prog):
+    """K6: HSL -> RGB picks its hue sextant by floor(6h) (8-bit: floor(6h / 256)) in both the 8-bit and the float implementation,
+    and the six arms assign (c, x, 0) to the channels by the standard table — the two siblings must agree with each other and
+    with the table. The selector is interpreted over the classes of the (non-negative) scaled hue relative to its floor, like
+    the texture coordinate in C12."""
+    from . import term as T
+    from .rules_C12 import floor_offset
+    cfg = prog.config
+    STD = {0: ("c", "x", "0"), 1: ("x", "c", "0"), 2: ("0", "c", "x"), 3: ("0", "x", "c"), 4: ("x", "0", "c"), 5: ("c", "0", "x")}
+    tables = {}
+    for label, path in (("f32", COL + "::<[f32; 3], math::color::Hsl>::to_rgb"), ("u8", COL + "::<[u8; 3], math::color::Hsl>::to_rgb")):
+        b = prog.body(path)
+        sl = T.Slicer(b)
+        sw = [(bi, blk["term"]) for bi, blk in enumerate(b.blocks) if blk["term"]["k"] == "SwitchInt" and len(blk["term"].get("targets", [])) >= 6]
+        rep.floor("C16.K6.%s.%s" % (label, cfg), len(sw), 1, "six-way sector switch in %s to_rgb" % label)
+        bi, t = sw[0]
+        d = T.strip(sl.operand(t["discr"]), sites=True, refs=True)
+        if label == "f32":
+            # selector = float -> int conversion of an expression of h' = 6h: mark `h * 6.0` as the coordinate
+            def mark(q):
+                if not isinstance(q, tuple):
+                    return q
+                if q[0] == "bin" and q[1] == "Mul" and ("const", "f32", 6.0) in (q[2], q[3]):
+                    return ("call", "hue::COORD", ())
+                return tuple(mark(x) if isinstance(x, tuple) else x for x in q)
+            marked = mark(d)
+            bad = []
+            for cls in ("zero or positive integer", "positive non-integer"):
+                r = floor_offset(prog, marked, "::COORD", cls)
+                if r[0] == "unknown":
+                    raise common.Infra("C16.K6: the sector selector of the float to_rgb has a form the floor analysis cannot classify (%s)" % r[1])
+                if r[0] == "bad":
+                    bad.append(r[1])
+                elif r != ("off", 0):
+                    bad.append("6h a %s -> floor(6h) %+d" % (cls, r[1]))
+            rep.inst("C16.K6", "float Hsl::to_rgb selects the sextant by floor(6h): %s  [%s]" % ("yes" if not bad else "NO: " + "; ".join(bad), T.show(d)[:80]), config=cfg)
+            if bad:
+                rep.violate("C16.K6", "K6|selector-f32", b.where(bi, None),
+                            "Color3f<Hsl>::to_rgb does not pick the hue sextant by floor(6h): %s — for hues in the wrong part of each sextant the channels are permuted "
+                            "(the 8-bit sibling uses 6h / 256, i.e. the floor)" % "; ".join(sorted(set(bad))), config=cfg)
+        else:
+            ok = d[0] == "bin" and d[1] == "Div" and T.strip(d[3], refs=True) == ("const", "i32", 256) and "Mul" in T.show(d[2]) and "6" in T.show(d[2])
+            rep.inst("C16.K6", "8-bit Hsl::to_rgb selects the sextant by (6h) / 256: %s  [%s]" % (ok, T.show(d)[:80]), config=cfg)
+            if not ok:
+                rep.violate("C16.K6", "K6|selector-u8", b.where(bi, None), "Color3<Hsl>::to_rgb does not pick the hue sextant by 6h / 256 (%s)" % T.show(d)[:120], config=cfg)
+        # the arms: interpret to_rgb once per sextant with the selector fixed, and read off which of c, x, 0 lands in which channel
+        table = {}
+        for j in range(6):
+            it = S.interp(prog, models=MODELS, oracle=lambda op, a_, b_: True)       # the debug range assertions hold (in-range input)
+            it.float_to_int = lambda v, to, j=j: j if not (isinstance(v, tuple) and v[0] == "f") else None
+            orig_binop = it.binop
+
+            def binop(op, a_, b_, ty, j=j, orig=orig_binop):
+                r_ = orig(op, a_, b_, ty)
+                return r_
+            chs = ["h", "s", "l"]
+            try:
+                if label == "f32":
+                    r = A.deref_all(it, it.call_body(b, [color(chs)]))
+                    outs = [A.deref_all(it, x) for x in S.components(it, r)]
+                else:
+                    outs = None
+            except (A.Undecided, A.Panic) as e:
+                raise common.Infra("C16.K6: %s to_rgb could not be interpreted for sextant %d (%s)" % (label, j, e))
+            if outs is None:
+                continue
+            # c, x, m as the code's own expressions are not needed: channels are told apart by their dependence on the opaque terms:
+            # the channel holding 0 is exactly m; c and x differ in containing the `h % 2` term
+            polys = [S.to_poly(o) for o in outs]
+            mset = None
+            kinds = []
+            for pz in polys:
+                has_mod = any("Rem" in sy_ for mono in pz for sy_ in mono)
+                kinds.append("x" if has_mod else None)
+            rest = [i for i, k_ in enumerate(kinds) if k_ is None]
+            if len(rest) == 2:
+                # of the two remaining channels the one with fewer terms is m alone ("0"), the other m + c
+                a_, b2 = rest
+                from . import poly as PL
+                diff = PL.padd(polys[a_], {m_: -c_ for m_, c_ in polys[b2].items()})       # +-c with c = (1 - |2l - 1|) s = s - s|..|
+                lead = diff.get(("s",), 0)
+                if lead > 0:
+                    kinds[a_], kinds[b2] = "c", "0"
+                elif lead < 0:
+                    kinds[a_], kinds[b2] = "0", "c"
+            table[j] = tuple(k_ or "?" for k_ in kinds)
+        if table:
+            tables[label] = table
+            okt = all(table[j] == STD[j] for j in range(6))
+            rep.inst("C16.K6", "%s Hsl::to_rgb sextant table %s: %s" % (label, table, "standard" if okt else "NOT the standard (c,x,0) permutations"), config=cfg)
+            if not okt and not any("?" in "".join(v) for v in table.values()):
+                rep.violate("C16.K6", "K6|table-%s" % label, b.where(),
+                            "%s Hsl::to_rgb assigns chroma/intermediate/zero to the channels as %s, the standard table is %s" % (label, table, STD), config=cfg)
+            elif not okt:
+                raise common.Infra("C16.K6: could not classify the channels of the %s sextant arms (%s)" % (label, table))
+
+
 def check(rep, args):
     configs = ["ws"] if rep.tier == "quick" else common.ALL_CONFIGS
     rep.configs = configs
     for cfg in configs:
-        check_config(rep, facts.program(cfg))
+        rep.guard(check_config, rep, facts.program(cfg))
+        rep.guard(sector_rules, rep, facts.program(cfg))
     cov = {
         "explanation": "symbolic interpretation of the packing, channel-plumbing, clamping and saturating colour functions on symbolic channels",
         "evaluations": len(rep.instances),
         "distinct_nontrivial": len({i["what"] for i in rep.instances}),
-        "rules": ["K1", "K2", "K3", "K4", "K5"],
+        "rules": ["K1", "K2", "K3", "K4", "K5", "K6"],
     }
     return "other", cov, ["`as u8` from float saturates and maps NaN to 0 (language semantics)",
                           "HSL<->RGB round-trip accuracy, in-range results and hue wrap are numeric and not decided"]
